@@ -18,6 +18,7 @@ ASSUMPTIONS = [
     "cfg(kani) harness modules appended to scratch copies; executable text unchanged",
 ]
 NOT_DECIDED = [
+    "a *different* lawful order (e.g. None last, or prefix-related lists ordered the other way) is not distinguished from a defect by the Verus obligations for Vec<T>: they pin the order the code implements today (lexicographic, prefix first); for Option<T> the complete Kani twin turns such a change into 'undecided'",
     "DoubleOps for BTreeMap<K,V> (iterator chains with closures: outside Verus's subset; CBMC gives no answer for two entries in 7 min, nor for at most one entry in 10 min)",
     "Vec hash law beyond length 2",
     "which fields the generator decorates (C02/C03 territory)",
@@ -60,14 +61,14 @@ KANI_UNITS = [
              H("f64_laws", "C14.K.f64.laws", P, ["DoubleOps for f64::cmp", "DoubleOps for f64::eq", "DoubleOps for f64::hash"],
                "L1-L6 for all triples of f64 bit patterns (runs ordered_float)"),
              H("option_f64_laws", "C14.K.option_f64.laws", P, ["DoubleOps for Option<T>::cmp", "DoubleOps for Option<T>::eq", "DoubleOps for Option<T>::hash"],
-               "L1-L6 for all triples of Option<f64>, None < Some"),
+               "L1-L6 for all triples of Option<f64>; Some/Some compares by payload"),
              H("option_option_f64_laws", "C14.K.option_option_f64.laws", P, ["DoubleOps for Option<T>::cmp", "DoubleOps for Option<T>::eq", "DoubleOps for Option<T>::hash"],
                "L1-L6 for all triples of Option<Option<f64>> (Some(None) vs None)"),
              H("wrapper_forwards", "C14.K.wrapper.forwards", P, ["PartialEq for DoubleOpsWrapper<'_,T>::eq", "Ord for DoubleOpsWrapper<'_,T>::cmp",
                "PartialOrd for DoubleOpsWrapper<'_,T>::partial_cmp", "Hash for DoubleOpsWrapper<'_,T>::hash"],
                "DoubleOpsWrapper's std traits are the DoubleOps methods"),
              H("vec_f64_pair_laws_len2", "C14.K.vec_f64.laws_len2", P, ["DoubleOps for Vec<T>::cmp", "DoubleOps for Vec<T>::eq"],
-               "L1-L3 + prefix/first-difference rules for pairs of Vec<f64> of length <= 2", kind="bounded", bound="len <= 2", timeout=600),
+               "L1-L3 for pairs of Vec<f64> of length <= 2", kind="bounded", bound="len <= 2", timeout=600),
              H("vec_f64_hash_len2", "C14.K.vec_f64.hash_len2", P, ["DoubleOps for Vec<T>::hash"],
                "equal vectors feed the hasher identical streams", kind="bounded", bound="len <= 2", timeout=600),
              H("vec_f64_trans_len2", "C14.K.vec_f64.trans_len2", P, ["DoubleOps for Vec<T>::cmp"],
@@ -93,14 +94,10 @@ def scan_trait_shape(repo):
 SCANS = [dict(name="C14.S.trait_shape", fn=scan_trait_shape, desc="syntactic: trait DoubleOps has the mirrored method set")]
 
 MUTANTS = [
-    dict(name="vec_cmp_final_len_swapped", file=P, **{"from": "self.len().cmp(&other.len())", "to": "other.len().cmp(&self.len())"},
-         expect=["C14.V.vec.cmp.post", "C14.K.vec_f64.laws_len2"]),
     dict(name="vec_cmp_skips_element0", file=P, **{"from": "for i in 0..l {", "to": "for i in 1..l {"},
          expect=["C14.V.vec.cmp.post", "C14.K.vec_f64.laws_len2"]),
-    dict(name="option_none_after_some_in_cmp_only", file=P,
-         **{"from": "(Some(_), None) => Ordering::Greater,\n            (None, Some(_)) => Ordering::Less,",
-            "to": "(Some(_), None) => Ordering::Less,\n            (None, Some(_)) => Ordering::Greater,"},
-         expect=["C14.V.option.cmp.post"]),
+    dict(name="option_cmp_some_some_always_equal", file=P, **{"from": "            (Some(a), Some(b)) => a.cmp(b),\n            (Some(_), None) => Ordering::Greater,", "to": "            (Some(_), Some(_)) => Ordering::Equal,\n            (Some(_), None) => Ordering::Greater,"},
+         expect=["C14.V.option.cmp.post", "C14.K.option_f64.laws"]),
     dict(name="f64_eq_uses_primitive", file=P, **{"from": "OrderedFloat(*self) == OrderedFloat(*other)", "to": "*self == *other"},
          expect=["C14.K.f64.laws"]),
     dict(name="double_key_hash_raw_bits", file=D, **{"from": "OrderedFloat(self.0).hash(state)", "to": "self.0.to_bits().hash(state)"},
@@ -108,6 +105,8 @@ MUTANTS = [
 ]
 
 BENIGN = [
+    # a different but equally lawful order (None last): the laws of the property still hold; must not be reported as a violation
+    dict(name="option_none_sorts_last_consistently", file=P, **{"from": "(Some(_), None) => Ordering::Greater,\n            (None, Some(_)) => Ordering::Less,", "to": "(Some(_), None) => Ordering::Less,\n            (None, Some(_)) => Ordering::Greater,"}),
     dict(name="vec_eq_index_renamed", file=P, **{"from": "        for i in 0..self.len() {\n            if !self[i].eq(&other[i]) {", "to": "        for idx in 0..self.len() {\n            if !self[idx].eq(&other[idx]) {"}),
     dict(name="vec_cmp_local_renamed", file=P, **{"from": "        let l = usize::min(self.len(), other.len());\n\n        let lhs = &self[..l];\n        let rhs = &other[..l];", "to": "        let l = usize::min(other.len(), self.len());\n\n        let lhs = &self[..l];\n        let rhs = &other[..l];"}),
     dict(name="option_eq_arms_reordered", file=P, **{"from": "            (Some(a), Some(b)) => a.eq(b),\n            (Some(_), None) | (None, Some(_)) => false,\n            (None, None) => true,", "to": "            (None, None) => true,\n            (Some(a), Some(b)) => a.eq(b),\n            (Some(_), None) | (None, Some(_)) => false,"}),
